@@ -17,6 +17,15 @@
 //	answer to the same request allowed for, and an immediate repetition of the call did not
 //	show the shortfall again (schedule-dependent behaviour; the repetition is recorded as mode 0 / 1)
 //	errclass 0 none 1 condition 2 too-complex/depth 3 validation 4 other 5 deadline/slow 6 hang (no response)
+//
+// A request may carry a 7th element ( extra ... ):
+//
+//	extra = ( 1 backend engine k variant transient errclass ( objid ... ) )   FAULT run: unary, maxResults 1000, the
+//	        k-th datastore read of the call failed with a plain error (variant 0: the read call, 1: the
+//	        iterator's first Next); recorded only when the fault was hit; transient = 1: the answer was
+//	        successful but shorter than the fault-free answer and two repetitions did not show that again
+//	extra = ( 2 backend engine limit parties count errclass ( objid ... ) )   BARRIER trial(s): classic engine, the
+//	        first `parties` confirming Checks were released at the same instant; count identical outcomes
 package main
 
 import (
@@ -84,6 +93,11 @@ type Req struct {
 	Chunk int    `json:"chunk"` // pipeline tuning
 	Procs int    `json:"procs"`
 	Buf   int    `json:"buf"`
+	// Fault: sweep "every single-read fault" over this request (memory backend, all engines).
+	Fault bool `json:"fault,omitempty"`
+	// Barrier: number of trials in which the confirming Checks of the classic engine are released
+	// together (only when the request has >= 2 candidates that need a Check).
+	Barrier int `json:"barrier,omitempty"`
 }
 
 func openSqlite(dir string) (storage.OpenFGADatastore, error) {
@@ -198,13 +212,18 @@ func engineOpts(engine int, rq Req, limit uint32) []commands.ListObjectsQueryOpt
 // list runs one real ListObjects call under a watchdog: a call that does not return within the
 // ListObjects deadline plus 1.5 s is abandoned (its goroutines leak) and reported as errHang.
 func (r *runner) list(rq Req, engine, mode int, limit uint32) (int, []string) {
+	return r.listWith(r.env.DS, r.resolver, rq, engine, mode, limit)
+}
+
+// listWith: the same with a substituted datastore (fault injection) or check resolver (barrier).
+func (r *runner) listWith(ds storage.OpenFGADatastore, resolver graph.CheckResolver, rq Req, engine, mode int, limit uint32) (int, []string) {
 	type res struct {
 		ec   int
 		objs []string
 	}
 	ch := make(chan res, 1)
 	go func() {
-		ec, objs, fellBack := r.list1(rq, engine, mode, limit)
+		ec, objs, fellBack := r.list1(ds, resolver, rq, engine, mode, limit)
 		if fellBack {
 			r.fellBack = true
 		}
@@ -223,8 +242,8 @@ func (r *runner) list(rq Req, engine, mode int, limit uint32) (int, []string) {
 
 // list1 runs one real ListObjects call; mode 0 = Execute, 1 = ExecuteStreamed.  fellBack: the
 // pipeline was requested but the call went through evaluate (classic reverse expansion).
-func (r *runner) list1(rq Req, engine, mode int, limit uint32) (int, []string, bool) {
-	q, err := commands.NewListObjectsQuery(r.env.DS, r.resolver, r.env.StoreID, engineOpts(engine, rq, limit)...)
+func (r *runner) list1(ds storage.OpenFGADatastore, resolver graph.CheckResolver, rq Req, engine, mode int, limit uint32) (int, []string, bool) {
+	q, err := commands.NewListObjectsQuery(ds, resolver, r.env.StoreID, engineOpts(engine, rq, limit)...)
 	if err != nil {
 		panic(err)
 	}
@@ -396,7 +415,7 @@ func chooseRequests(r *rec.Rand, s *scen.Scenario, subjects []string, probe func
 	return out
 }
 
-func runScenario(ctx context.Context, w *rec.Writer, r *rec.Rand, sq storage.OpenFGADatastore, s *scen.Scenario, reqs []Req, full bool) {
+func runScenario(ctx context.Context, w *rec.Writer, r *rec.Rand, sq storage.OpenFGADatastore, s *scen.Scenario, reqs []Req, full, sweep bool) {
 	envM, err := scen.NewEnv(ctx, s)
 	if err != nil {
 		if errors.Is(err, scen.ErrModelRejected) {
@@ -440,6 +459,15 @@ func runScenario(ctx context.Context, w *rec.Writer, r *rec.Rand, sq storage.Ope
 			_, objs := runners[0].list(q, engClassic, 0, 0)
 			return len(objs)
 		})
+		for i := range reqs {
+			reqs[i].Barrier = 6
+			if full {
+				reqs[i].Barrier = 20
+			}
+			if sweep && i < 2 {
+				reqs[i].Fault = true
+			}
+		}
 	} else {
 		for _, q := range reqs {
 			subjects = append(subjects, q.User)
@@ -466,6 +494,7 @@ func runScenario(ctx context.Context, w *rec.Writer, r *rec.Rand, sq storage.Ope
 			pxs = append(pxs, rec.L(rec.I(in.T(p[0])), rec.I(in.R(p[1]))))
 		}
 		var runs, streams []rec.V
+		memRFE := 0 // candidates of the classic stream on memory that need a confirming Check
 		emit := func(b, engine, mode int, limit uint32, ec int, objs []string) {
 			if engine == engPipeline && runners[b].fellBack {
 				engine = engClassic // effective engine
@@ -574,14 +603,130 @@ func runScenario(ctx context.Context, w *rec.Writer, r *rec.Rand, sq storage.Ope
 				if os.Getenv("C05_DEBUG") != "" {
 					fmt.Fprintf(os.Stderr, "stream %v backend=%d weighted=%v err=%s cands=%v\n", rq, b, weighted, errNames[ec], cs)
 				}
+				if b == 0 && !weighted {
+					memRFE = rf
+				}
 				w.Stat("candidates_nofurther", nf)
 				w.Stat("candidates_requires_check", rf)
 				w.Stat("streams_"+errNames[ec], 1)
 				streams = append(streams, rec.L(rec.I(b), rec.I(wi), rec.I(ec), rec.L(cvs...)))
 			}
 		}
+		var extras []rec.V
+		idsOf := func(objs []string) rec.V {
+			ids := make([]rec.V, 0, len(objs))
+			for _, o := range objs {
+				t, id := scen.SplitObj(o)
+				if t != rq.Type {
+					w.PropFail(fmt.Sprintf("ListObjects(type=%s) returned %q: an object of another type", rq.Type, o),
+						map[string]any{"scenario": s, "requests": []Req{rq}})
+				}
+				ids = append(ids, rec.I(in.ID(id)))
+			}
+			return rec.L(ids...)
+		}
+		rn := runners[0]
+		if rq.Fault {
+			// ---- every single-read fault (memory backend, every engine, unary, maxResults 1000) ----
+			for engine := engClassic; engine <= engPipeline; engine++ {
+				count := &faultDS{OpenFGADatastore: envM.DS, failAt: -1}
+				ec0, objs0 := rn.listWith(count, rn.resolver, rq, engine, 0, serverconfig.DefaultListObjectsMaxResults)
+				eff := engine
+				if engine == engPipeline && rn.fellBack {
+					eff = engClassic
+				}
+				rn.fellBack = false
+				if ec0 != errNone {
+					continue
+				}
+				n := int(count.n.Load())
+				w.Stat("fault_reads_per_call", n)
+				w.Stat("fault_sweeps", 1)
+				maxPos := 24
+				if full {
+					maxPos = 80
+				}
+				var positions []int
+				for k := 0; k < n; k++ {
+					positions = append(positions, k)
+				}
+				if n > maxPos {
+					rec.Shuffle(r, positions)
+					positions = positions[:maxPos]
+				}
+				for _, k := range positions {
+					variants := []int{k % 2}
+					if n <= 12 {
+						variants = []int{0, 1}
+					}
+					for _, variant := range variants {
+						run := func() (int, []string, bool) {
+							f := &faultDS{OpenFGADatastore: envM.DS, failAt: int64(k), variant: variant}
+							ec, objs := rn.listWith(f, rn.resolver, rq, engine, 0, serverconfig.DefaultListObjectsMaxResults)
+							rn.fellBack = false
+							return ec, objs, f.hit.Load()
+						}
+						ec, objs, hit := run()
+						if !hit {
+							w.Stat("fault_not_hit", 1)
+							continue
+						}
+						transient := 0
+						if ec == errNone && len(objs) < len(objs0) {
+							for try := 0; try < 2; try++ {
+								ec2, objs2, hit2 := run()
+								if hit2 && (ec2 != errNone || len(objs2) >= len(objs0)) {
+									transient = 1
+									break
+								}
+							}
+						}
+						w.Stat("fault_runs", 1)
+						w.Stat("fault_runs_"+engNames[eff]+"_"+errNames[ec], 1)
+						extras = append(extras, rec.L(rec.I(1), rec.I(0), rec.I(eff), rec.I(k), rec.I(variant), rec.I(transient), rec.I(ec), idsOf(objs)))
+						if os.Getenv("C05_DEBUG") != "" {
+							fmt.Fprintf(os.Stderr, "fault %v engine=%s k=%d/%d variant=%d transient=%d err=%s objs=%v (fault-free %v)\n", rq, engNames[eff], k, n, variant, transient, errNames[ec], objs, objs0)
+						}
+					}
+				}
+			}
+		}
+		if rq.Barrier > 0 && memRFE >= 2 {
+			// ---- confirming Checks released together (classic engine) ----
+			parties := memRFE
+			if parties > 8 {
+				parties = 8
+			}
+			limits := []uint32{uint32(parties - 1)}
+			if parties >= 8 {
+				limits = []uint32{7, 6, 3}
+			}
+			type outcome struct {
+				limit uint32
+				ec    int
+				key   string
+			}
+			counts := map[outcome]int{}
+			first := map[outcome][]string{}
+			var order []outcome
+			for trial := 0; trial < rq.Barrier; trial++ {
+				l := limits[trial%len(limits)]
+				ec, objs := rn.listWith(envM.DS, newBarrierResolver(rn.resolver, parties), rq, engClassic, 0, l)
+				rn.fellBack = false
+				o := outcome{l, ec, strings.Join(objs, ",")}
+				if counts[o] == 0 {
+					order = append(order, o)
+					first[o] = objs
+				}
+				counts[o]++
+				w.Stat("barrier_trials", 1)
+			}
+			for _, o := range order {
+				extras = append(extras, rec.L(rec.I(2), rec.I(0), rec.I(engClassic), rec.I(int(o.limit)), rec.I(parties), rec.I(counts[o]), rec.I(o.ec), idsOf(first[o])))
+			}
+		}
 		ot := rec.I(in.T(rq.Type))
-		rvs = append(rvs, rec.L(in.Subject(rq.User), rec.L(pxs...), ot, rec.I(in.R(rq.Rel)), rec.L(runs...), rec.L(streams...)))
+		rvs = append(rvs, rec.L(in.Subject(rq.User), rec.L(pxs...), ot, rec.I(in.R(rq.Rel)), rec.L(runs...), rec.L(streams...), rec.L(extras...)))
 		w.Stat("requests", 1)
 	}
 	nt := len(reqs) > 0
@@ -653,6 +798,38 @@ func witnesses() []witness {
 		{Obj: "doc:1", Rel: "blocked", User: "user:b", Cond: "c1"},
 		{Obj: "doc:3", Rel: "blocked", User: "user:b", Cond: "c1", Ctx: map[string]any{"x": 1}},
 	}}, []Req{dflt("user:b", "doc", "allowed")}})
+	// every single-read fault on an intersection and an exclusion with several candidates: a response
+	// without error must be the complete permitted set, whatever read failed
+	{
+		var ts []scen.Tuple
+		for i := 1; i <= 6; i++ {
+			ts = append(ts, scen.Tuple{Obj: fmt.Sprintf("doc:%d", i), Rel: "viewer", User: "user:a"},
+				scen.Tuple{Obj: fmt.Sprintf("doc:%d", i), Rel: "editor", User: "user:a"})
+		}
+		ts = append(ts, scen.Tuple{Obj: "doc:2", Rel: "blocked", User: "user:a"})
+		out = append(out, witness{&scen.Scenario{Shape: "fixed-single-read-faults", Types: []scen.TypeDef{user,
+			{Name: "doc", Rels: []scen.RelDef{
+				{Name: "viewer", RW: scen.This(), Restr: []scen.Restr{scen.RObj("user")}},
+				{Name: "editor", RW: scen.This(), Restr: []scen.Restr{scen.RObj("user")}},
+				{Name: "blocked", RW: scen.This(), Restr: []scen.Restr{scen.RObj("user")}},
+				{Name: "owner", RW: scen.Inter(scen.Comp("viewer"), scen.Comp("editor"))},
+				{Name: "allowed", RW: scen.Diff(scen.Comp("viewer"), scen.Comp("blocked"))},
+			}}}, Tuples: ts}, []Req{
+			{User: "user:a", Type: "doc", Rel: "owner", Chunk: 100, Procs: 3, Buf: 128, Fault: true},
+			{User: "user:a", Type: "doc", Rel: "allowed", Chunk: 2, Procs: 1, Buf: 1, Fault: true}}})
+	}
+	// a batch of confirming Checks completing together against small limits (classic engine)
+	{
+		var ts []scen.Tuple
+		for i := 1; i <= 24; i++ {
+			ts = append(ts, scen.Tuple{Obj: fmt.Sprintf("doc:%d", i), Rel: "viewer", User: "user:a"})
+		}
+		out = append(out, witness{&scen.Scenario{Shape: "fixed-check-barrier", Types: []scen.TypeDef{user,
+			{Name: "doc", Rels: []scen.RelDef{
+				{Name: "blocked", RW: scen.This(), Restr: []scen.Restr{scen.RObj("user")}},
+				{Name: "viewer", RW: scen.Diff(scen.This(), scen.Comp("blocked")), Restr: []scen.Restr{scen.RObj("user")}},
+			}}}, Tuples: ts}, []Req{{User: "user:a", Type: "doc", Rel: "viewer", Chunk: 100, Procs: 3, Buf: 128, Barrier: 240}}})
+	}
 	return out
 }
 
@@ -700,12 +877,12 @@ func main() {
 			if d.Requests == nil {
 				d.Requests = []Req{}
 			}
-			runScenario(ctx, w, rec.NewRand(1), sq, d.Scenario, d.Requests, true)
+			runScenario(ctx, w, rec.NewRand(1), sq, d.Scenario, d.Requests, true, false)
 		}
 		return
 	}
 	for _, wt := range witnesses() {
-		runScenario(ctx, w, rec.NewRand(1), sq, wt.s, wt.reqs, true)
+		runScenario(ctx, w, rec.NewRand(1), sq, wt.s, wt.reqs, true, false)
 	}
 	r := rec.NewRand(o.Seed)
 	for i := 0; i < o.N; i++ {
@@ -717,6 +894,6 @@ func main() {
 		} else {
 			s = scen.Generate(rr, scen.DefaultOpts())
 		}
-		runScenario(ctx, w, rr, sq, s, nil, full)
+		runScenario(ctx, w, rr, sq, s, nil, full, i%3 == 0)
 	}
 }
